@@ -67,6 +67,7 @@ class StoreRun:
         self.fresh = 0
         self.samples = []
         self.uid_pool = ["uid-1", "uid-2", "uid-3", "UID-1", "uid 2", "u,3;x"]
+        self.bytes_hist = {}  # name -> served contents it has had
 
     def count(self, k, n=1):
         self.stats[k] = self.stats.get(k, 0) + n
@@ -80,13 +81,17 @@ class StoreRun:
 
     # ---------------------------------------------------------------- generation
     def exts(self):
-        return [".ics", ".ics", ".vcf"] if self.cfg["backend"] == "vdir" else [".ics", ".ics", ".vcf", ".txt"]
+        e = [".ics", ".ics", ".vcf"] if self.cfg["backend"] == "vdir" else [".ics", ".ics", ".vcf", ".txt"]
+        if self.prop == "C06":
+            # extensions are matched without regard to case (mimetypes does so)
+            e = e + [".ICS", ".Ics"]
+        return e
 
     def body(self, name, uid):
         r = self.rng
-        if name.endswith(".ics"):
+        if name.lower().endswith(".ics"):
             return gen.ics(r, uid), "text/calendar"
-        if name.endswith(".vcf"):
+        if name.lower().endswith(".vcf"):
             return gen.vcf(r, uid=uid), "text/vcard"
         return gen.opaque(r), "application/octet-stream"
 
@@ -156,7 +161,7 @@ class StoreRun:
             n, u = r.choice(holders)
             h = r.randrange(nh)
             self.fresh += 2
-            ct = "text/calendar" if n.endswith(".ics") else "text/vcard"
+            ct = "text/calendar" if n.lower().endswith(".ics") else "text/vcard"
             b2, ct2 = self.body("back%d.ics" % self.fresh, u)
             self.queue = [{"op": "delete", "name": n, "handle": h},
                           {"op": "import", "name": n, "body": self.model[n]["bytes"].decode("latin-1"), "ctype": ct, "handle": h},
@@ -169,7 +174,7 @@ class StoreRun:
             self.fresh += 1
             nm = "%s%d%s" % (r.choice(["a", "b", "item"]), self.fresh, r.choice(self.exts()))
             uid = r.choice(self.uid_pool) if (p == "C06" and r.random() < 0.7) else "u-%d" % self.fresh
-            if nm.endswith(".ics") and r.random() < 0.06:
+            if nm.lower().endswith(".ics") and r.random() < 0.06:
                 uid = None
             b, ct = self.body(nm, uid)
             op = {"op": "import", "name": nm, "body": b.decode("latin-1"), "ctype": ct}
@@ -185,7 +190,25 @@ class StoreRun:
                 uid = r.choice(self.uid_pool)
             else:
                 uid = m.get("uid") if r.random() < 0.8 else "u-moved-%d" % r.randint(0, 99)
-            if r.random() < 0.2 and m["bytes"] and nm.endswith((".ics", ".vcf")):
+            prev = [b for b in self.bytes_hist.get(nm, []) if b != m["bytes"]]
+            if prev and r.random() < 0.2:
+                # back to an earlier content of this member (the collection returns to a state it had before)
+                b = r.choice(prev[-3:])
+                ct = "text/calendar" if nm.lower().endswith(".ics") else "text/vcard" if nm.lower().endswith(".vcf") else "application/octet-stream"
+                return {"op": "import", "name": nm, "body": b.decode("latin-1"), "ctype": ct, "revert": True}
+            swap = None
+            if p == "C06" and m.get("uid") and nm.lower().endswith(".ics") and r.random() < 0.3:
+                # the UID changes to one of the same length and nothing else does: same size, and with
+                # simulated time stamps the same mtime (defeats change detection by stat)
+                cands = [u for u in self.uid_pool if len(u) == len(m["uid"]) and u != m["uid"]]
+                cands += [m["uid"][:-1] + ("7" if m["uid"][-1] != "7" else "3")]
+                new_uid = r.choice(cands)
+                old_line = b"UID:" + m["uid"].encode("utf-8")
+                if m["bytes"].count(old_line) == 1:
+                    swap = m["bytes"].replace(old_line, b"UID:" + new_uid.encode("utf-8"))
+            if swap is not None:
+                b, ct = swap, "text/calendar"
+            elif r.random() < 0.2 and m["bytes"] and nm.lower().endswith((".ics", ".vcf")):
                 # same length, different content (defeats caches keyed on size and timestamps)
                 old = m["bytes"]
                 i = old.find(b"uid-") if b"uid-" in old else old.find(b"FN:")
@@ -194,9 +217,9 @@ class StoreRun:
                     if old[j:j + 1].isdigit():
                         b = old[:j] + (b"7" if old[j:j + 1] != b"7" else b"3") + old[j + 1:]
                         break
-                ct = "text/calendar" if nm.endswith(".ics") else "text/vcard"
+                ct = "text/calendar" if nm.lower().endswith(".ics") else "text/vcard"
             elif r.random() < 0.15:
-                b, ct = m["bytes"], ("text/calendar" if nm.endswith(".ics") else "text/vcard" if nm.endswith(".vcf") else "application/octet-stream")
+                b, ct = m["bytes"], ("text/calendar" if nm.lower().endswith(".ics") else "text/vcard" if nm.lower().endswith(".vcf") else "application/octet-stream")
             else:
                 b, ct = self.body(nm, uid)
             op = {"op": "import", "name": nm, "body": b.decode("latin-1"), "ctype": ct}
@@ -219,7 +242,7 @@ class StoreRun:
             ext = r.choice([".ics", ".vcf"])
             src = gen.INVALID_ICS if ext == ".ics" else gen.INVALID_VCF
             b = src[inv](r)
-            nm = r.choice([n for n in names if n.endswith(ext)] or ["inv%d%s" % (self.fresh, ext)])
+            nm = r.choice([n for n in names if n.lower().endswith(ext)] or ["inv%d%s" % (self.fresh, ext)])
             return {"op": "import", "name": nm, "body": b.decode("latin-1"), "ctype": "text/calendar" if ext == ".ics" else "text/vcard", "invalid": inv}
         return {"op": "read"}
 
@@ -370,7 +393,7 @@ class StoreRun:
                     if isinstance(exc, InvalidETag):
                         self.v("C03", "C03.true-precondition-refused", "import_one(%s, replace_etag=current) raised InvalidETag" % name, api="import_one")
             body = op["body"].encode("latin-1")
-            uid = icalparse.first_uid(body) if (name or "x.ics").endswith(".ics") and op["ctype"] == "text/calendar" else None
+            uid = icalparse.first_uid(body) if (name or "x.ics").lower().endswith(".ics") and op["ctype"] == "text/calendar" else None
             if uid is not None and mode == "op" and not op.get("invalid"):
                 holders = [n for n, m in model.items() if n != name and m.get("uid") == uid]
                 if holders:
@@ -447,7 +470,7 @@ class StoreRun:
     def compare(self, obs, expect, oracle, opkind, exc=None):
         backend = self.cfg["backend"]
         for n, m in expect.items():
-            if backend == "vdir" and not n.endswith((".ics", ".vcf")):
+            if backend == "vdir" and not n.lower().endswith((".ics", ".vcf")):
                 continue
             if n not in obs:
                 self.v("C01", oracle, "%s is missing after %s%s" % (n, opkind, " (%s)" % type(exc).__name__ if exc else ""), what="missing")
@@ -455,7 +478,7 @@ class StoreRun:
             if "pending" in m:
                 up = m["pending"]
                 got = obs[n][1]
-                calish = n.endswith(".ics") or m["ctype"] == "text/calendar"
+                calish = n.lower().endswith(".ics") or m["ctype"] == "text/calendar"
                 if not (got == up or (calish and icalparse.semantically_equal(up, got))):
                     self.v("C01", "C01.served-differs-from-upload", "%s: %s" % (n, icalparse.diff(up, got) if calish else "bytes differ"), ext=n.rsplit(".", 1)[-1])
             elif obs[n][1] != m["bytes"]:
@@ -465,13 +488,16 @@ class StoreRun:
                 self.v("C01", oracle, "%s appeared after %s" % (n, opkind), what="extra")
 
     def learn(self, n, etag, data, old):
-        uid = icalparse.first_uid(data) if n.endswith(".ics") else None
+        uid = icalparse.first_uid(data) if n.lower().endswith(".ics") else None
         self.model[n] = {"bytes": data, "etag": etag, "uid": uid}
         h = self.etag_hist.setdefault(n, [])
         if not h or h[-1] != etag:
             h.append(etag)
         if uid is not None:
             self.nontrivial.setdefault("uids", set()).add(uid)
+        bh = self.bytes_hist.setdefault(n, [])
+        if not bh or bh[-1] != data:
+            bh.append(data)
         eb = self.etag_bytes.setdefault(n, {})
         be = self.bytes_etag.setdefault(n, {})
         d = hashlib.sha1(data).hexdigest()
